@@ -97,6 +97,8 @@ func propC05(c *Ctx) {
 	ruleLoopStutter(c, rls, l.RepoFuncs(func(p string) bool { return p == modPath || p == modPath+"/parser" || p == modPath+"/token" }), 60)
 	rgo := c.Rule("global-operand-interned", "every emitted OpGetGlobal / OpSetGlobal takes its operand from interning the global's name in the constants of the current compilation: Bytecode from a re-used symbol table (an Eval session after a fragment that failed to compile) stays well formed", 1)
 	ruleGlobalOperandInterned(c, rgo)
+	rse := c.Rule("scan-loop-eof", "every character-reading loop of the scanner has an exit that stays open when every read of the current character yields the end-of-input sentinel (an unterminated construct at the end of the input does not spin)", 8)
+	ruleScanLoopEOF(c, rse)
 	rtw := c.Rule("trace-writer-guard", "every write to a trace writer field of the compiler / optimizer lies behind a test that the field is not nil (the Trace* flags are independent of the writer)", 6)
 	ruleTraceWriterGuard(c, rtw)
 	rfx := c.Rule("fixpoint-reset", "the optimizer's pass loop resets, inside the loop, the change counter whose being zero ends it: the number of passes does not grow with the budget (Compile terminates whatever OptimizerLimit is)", 1)
